@@ -238,7 +238,13 @@ fn arm_watchdog(prop: &'static str, replays: &str, seed: u64, tool: &str, out: O
                 .set("case", case);
             let _ = std::fs::write(&path, j.to_pretty());
             println!("ABORT property={prop} subject={subject} replay={path}");
-            std::process::exit(4);
+            // (no destructors, no atexit handlers: the aborting thread is parked in a signal handler in the middle of
+            // whatever it was doing)
+            let _ = std::io::Write::flush(&mut std::io::stdout());
+            extern "C" {
+                fn _exit(code: i32) -> !;
+            }
+            unsafe { _exit(4) }
         }
         watchdog::Stall::AbortHarness(case) => {
             let _ = std::fs::create_dir_all(&replays);
@@ -249,7 +255,11 @@ fn arm_watchdog(prop: &'static str, replays: &str, seed: u64, tool: &str, out: O
                 let j = J::obj().set("prop", prop).set("inconclusive", "process-abort-outside-observed-call");
                 let _ = std::fs::write(out, j.to_pretty());
             }
-            std::process::exit(2);
+            let _ = std::io::Write::flush(&mut std::io::stdout());
+            extern "C" {
+                fn _exit(code: i32) -> !;
+            }
+            unsafe { _exit(2) }
         }
         watchdog::Stall::Harness(case) => {
             let _ = std::fs::create_dir_all(&replays);
